@@ -67,8 +67,23 @@ class C13(Prop):
             for sm in grid:
                 start = f"{sm // 60:02d}:{sm % 60:02d}"
                 acc.ev()
+                # the selected days in whatever collection the caller happens to hold them, positionally or by name
+                form = (sm + len(days) * 7 + sum(days)) % 8
                 try:
-                    text = f(start, dayset) if dayset else f(start)
+                    if not dayset:
+                        text = f(start) if form % 2 else f(start_time=start)
+                    elif form == 1:
+                        text = f(start, frozenset(dayset))
+                    elif form == 2:
+                        text = f(start, tuple(sorted(dayset, key=lambda d: -d.weekday)))
+                    elif form == 3:
+                        text = f(start, list(dayset))
+                    elif form == 4:
+                        text = f(days=dayset, start_time=start)
+                    elif form == 5:
+                        text = f(start, days=frozenset(dayset))
+                    else:
+                        text = f(start, dayset)
                 except Exception as exc:
                     acc.violation("raised", f"pretty_next_run({start},{sorted(days)}) raised {type(exc).__name__}",
                                   {"start": start, "days": sorted(days)})
@@ -125,11 +140,14 @@ class C13(Prop):
                 self._pass(acc, f, zone, t2, loc2.weekday(), loc2.hour * 60 + loc2.minute, datetime.fromtimestamp(t2, timezone.utc), grid, some)
             traveller.move_to(float(now))
             # through the schedule object
-            for _ in range(4):
+            for _ in range(8):
                 days = r.choice(ALL_SETS)
                 sm = r.choice(grid)
                 start = f"{sm // 60:02d}:{sm % 60:02d}"
-                sch = self.parser.SwitcherSchedule("0", bool(days), {self.members[d] for d in days}, start, "00:00")
+                # built by hand the recurring flag is the caller's business; the days decide when it runs next
+                recurring = bool(days) if r.random() < 0.5 else r.random() < 0.5
+                dset = {self.members[d] for d in days}
+                sch = self.parser.SwitcherSchedule("0", recurring, frozenset(dset) if r.random() < 0.3 else dset, start, "00:00")
                 acc.ev()
                 want = clock.next_run(wd, now_min, sm, set(days))
                 got = clock.classify_text(sch.display, start)
